@@ -277,12 +277,20 @@ fn ipv6() -> BoxedStrategy<[u16; 8]> {
     .boxed()
 }
 
-/// true if the IPv4 alternative of a host parser could grab a prefix of this name
+/// true if the IPv4 alternative of a host parser grabs this name or a prefix of it: the first three labels are
+/// digit runs and the fourth starts with one, and those four numbers form a *valid* IPv4 literal (each at most
+/// 255, no leading zeros - `010.1.2.3` is not an address, it is a host name and must come back as one)
 fn looks_like_ipv4_prefix(name: &str) -> bool {
     let labels: Vec<&str> = name.split('.').collect();
-    labels.len() >= 4
-        && labels[..3].iter().all(|l| !l.is_empty() && l.chars().all(|c| c.is_ascii_digit()))
-        && labels[3].chars().next().map_or(false, |c| c.is_ascii_digit())
+    if labels.len() < 4 || !labels[..3].iter().all(|l| !l.is_empty() && l.chars().all(|c| c.is_ascii_digit())) {
+        return false;
+    }
+    let run: String = labels[3].chars().take_while(|c| c.is_ascii_digit()).collect();
+    if run.is_empty() {
+        return false;
+    }
+    // every prefix of the digit run the address parser could stop at
+    (1..=run.len()).any(|n| format!("{}.{}.{}.{}", labels[0], labels[1], labels[2], &run[..n]).parse::<std::net::Ipv4Addr>().is_ok())
 }
 
 fn host_name() -> BoxedStrategy<String> {
@@ -291,9 +299,20 @@ fn host_name() -> BoxedStrategy<String> {
         2 => "[0-9]{1,3}",
         1 => "[a-z]{1,3}",
     ];
-    (vec(label, 1..=5), any::<bool>())
-        .prop_map(|(labels, dot)| {
-            let mut name = labels.join(".");
+    // names made of numbers only: dotted quads that are NOT addresses (leading zeros, a part above 255, too
+    // many digits), which the address alternative must leave to the host-name alternative
+    let numeric = prop_oneof![
+        3 => "0{1,2}[0-9]{1,2}",
+        3 => "[0-9]{1,3}",
+        1 => "(25[6-9]|2[6-9][0-9]|[3-9][0-9]{2})",
+        1 => "[0-9]{4}",
+    ];
+    prop_oneof![
+        6 => vec(label, 1..=5).prop_map(|l| l.join(".")),
+        2 => vec(numeric, 4..=5).prop_map(|l| l.join(".")),
+    ]
+    .prop_flat_map(|name| (Just(name), any::<bool>()))
+        .prop_map(|(mut name, dot)| {
             if looks_like_ipv4_prefix(&name) {
                 // by construction, not by filter: names the IPv4 parser would grab are outside the domain
                 name.insert(0, 'h');
